@@ -43,7 +43,9 @@ def plan(tier, seed):
         for d in ("lin", "gam"):
             if d == "gam" and nm == "HLG":
                 continue     # sqrt / ln on both branches: nothing to compare bit for bit (numeric check in k_cv_segments)
-            hs.append(dict(name="k_cv_formula_%s_%d" % (d, i), family="formula", timeout=1500, mem_gb=10, replay=CV.replay_formula, mode=d, ti=i,
+            if nm == "PQ" and not thorough:
+                continue     # 20+ minutes each (four stand-in powf calls around float divisions): thorough tier only
+            hs.append(dict(name="k_cv_formula_%s_%d" % (d, i), family="formula", timeout=3600 if nm == "PQ" else 1500, mem_gb=10, replay=CV.replay_formula, mode=d, ti=i,
                            obligation="formula-level differential, %s %s: for every f32 input the real dispatch + curve code is bit-identical to a reference model re-transcribed from the curve's definition (exponent, knee, branch order, constants), powf/expf replaced on both sides by one pure stand-in%s" % (
                                nm, "gamma->linear" if d == "lin" else "linear->gamma", " (branches through log10 excluded)" if (d == "gam" and nm.startswith("Log")) else ""),
                            sym="x: all 2^32 bit patterns", covers=[]))
